@@ -1021,6 +1021,17 @@ private:
         sink_.append(b.data(), b.size());
     }
 
+    // The byte string of a typed array is a string of the stringref namespace like any other: a decoder gives it the next index
+    void write_typed_array_bytes(const byte_string_view& b) 
+    {
+        if (pack_strings_ && b.size() >= jsoncons::cbor::detail::min_length_for_stringref(next_stringref_))
+        {
+            bytestringref_map_.emplace(std::make_pair(byte_string_type(b.data(), b.size(), alloc_), next_stringref_));
+            ++next_stringref_;
+        }
+        write_byte_string(b);
+    }
+
     JSONCONS_VISITOR_RETURN_TYPE visit_double(double val, 
                       semantic_tag tag,
                       const ser_context&,
@@ -1165,7 +1176,7 @@ private:
                     write_tag(0x40);
                     break;
             }
-            write_byte_string(byte_string_view(data));
+            write_typed_array_bytes(byte_string_view(data));
             end_value();
             JSONCONS_VISITOR_RETURN;
         }
@@ -1194,7 +1205,7 @@ private:
                                   uint16_t(), 
                                   tag);
             jsoncons::span<const uint8_t> s((const uint8_t*)(data.data()), data.size()*sizeof(uint16_t));
-            write_byte_string(byte_string_view(s));
+            write_typed_array_bytes(byte_string_view(s));
             end_value();
             JSONCONS_VISITOR_RETURN;
         }
@@ -1223,7 +1234,7 @@ private:
                                   uint32_t(), 
                                   tag);
             jsoncons::span<const uint8_t> s((const uint8_t*)(data.data()), data.size() * sizeof(uint32_t));
-            write_byte_string(byte_string_view(s));
+            write_typed_array_bytes(byte_string_view(s));
             end_value();
             JSONCONS_VISITOR_RETURN;
         }
@@ -1252,7 +1263,7 @@ private:
                                   uint64_t(), 
                                   tag);
             jsoncons::span<const uint8_t> s((const uint8_t*)(data.data()), data.size() * sizeof(uint64_t));
-            write_byte_string(byte_string_view(s));
+            write_typed_array_bytes(byte_string_view(s));
             end_value();
             JSONCONS_VISITOR_RETURN;
         }
@@ -1279,7 +1290,7 @@ private:
         {
             write_tag(0x48);
             jsoncons::span<const uint8_t> s((const uint8_t*)(data.data()), data.size() * sizeof(int8_t));
-            write_byte_string(byte_string_view(s));
+            write_typed_array_bytes(byte_string_view(s));
             end_value();
             JSONCONS_VISITOR_RETURN;
         }
@@ -1308,7 +1319,7 @@ private:
                                   int16_t(), 
                                   tag);
             jsoncons::span<const uint8_t> s((const uint8_t*)(data.data()), data.size() * sizeof(int16_t));
-            write_byte_string(byte_string_view(s));
+            write_typed_array_bytes(byte_string_view(s));
             end_value();
             JSONCONS_VISITOR_RETURN;
         }
@@ -1337,7 +1348,7 @@ private:
                                   int32_t(), 
                                   tag);
             jsoncons::span<const uint8_t> s((const uint8_t*)(data.data()), data.size() * sizeof(int32_t));
-            write_byte_string(byte_string_view(s));
+            write_typed_array_bytes(byte_string_view(s));
             end_value();
             JSONCONS_VISITOR_RETURN;
         }
@@ -1366,7 +1377,7 @@ private:
                                   int64_t(), 
                                   tag);
             jsoncons::span<const uint8_t> s((const uint8_t*)(data.data()), data.size() * sizeof(int64_t));
-            write_byte_string(byte_string_view(s));
+            write_typed_array_bytes(byte_string_view(s));
             end_value();
             JSONCONS_VISITOR_RETURN;
         }
@@ -1396,7 +1407,7 @@ private:
                                   half_arg, 
                                   tag);
             jsoncons::span<const uint8_t> s((const uint8_t*)(data.data()), data.size() * sizeof(uint16_t));
-            write_byte_string(byte_string_view(s));
+            write_typed_array_bytes(byte_string_view(s));
             end_value();
             JSONCONS_VISITOR_RETURN;
         }
@@ -1425,7 +1436,7 @@ private:
                                   float(), 
                                   tag);
             jsoncons::span<const uint8_t> s((const uint8_t*)(data.data()), data.size() * sizeof(float));
-            write_byte_string(byte_string_view(s));
+            write_typed_array_bytes(byte_string_view(s));
             end_value();
             JSONCONS_VISITOR_RETURN;
         }
@@ -1454,7 +1465,7 @@ private:
                                   double(), 
                                   tag);
             jsoncons::span<const uint8_t> s((const uint8_t*)(data.data()), data.size() * sizeof(double));
-            write_byte_string(byte_string_view(s));
+            write_typed_array_bytes(byte_string_view(s));
             end_value();
             JSONCONS_VISITOR_RETURN;
         }
